@@ -146,8 +146,15 @@ class Sim:
         self.nevents = 0
         # fault table: {(actor_name, nth_mutating_call): kind}
         self.faults = {}
+        # faults on non-mutating calls (open for reading, read, stat,
+        # listdir): {(actor, n-th such call): kind}; a plan asks for one with
+        # "on": "read"
+        self.rfaults = {}
         for f in faults or []:
-            self.faults[(f["actor"], int(f["nth"]))] = f["kind"]
+            if f.get("on") == "read":
+                self.rfaults[(f["actor"], int(f["nth"]))] = f["kind"]
+            else:
+                self.faults[(f["actor"], int(f["nth"]))] = f["kind"]
         self.fired = []  # faults that actually fired
         self.fault_filter = None  # fn(call, rel) -> may this call be failed?
         self.violations = []  # (signature, detail)
